@@ -262,17 +262,110 @@ Proof.
     apply existsb_exists. eexists. split; [exact Hi|]. cbn [fst snd]. rewrite rid_eqb_refl, Hm. reflexivity.
 Qed.
 
-Lemma obs_check_model : forall ms prs e st, R ms (g_mem st) -> mem_ok (g_mem st) -> Forall wf_probe prs ->
+(* ---- the running gater and a gater reopened on the same datastore ---------------- *)
+Lemma agree_mem_ok : forall d m, agree d m -> mem_ok m.
+Proof. intros d m (_ & _ & _ & Wa & Ws). split; assumption. Qed.
+
+Lemma first_diff_b_refl : forall l i, first_diff_b i l l = None.
+Proof. induction l as [|x r IH]; intros i; cbn [first_diff_b]; [reflexivity|]. rewrite eqb_reflx. apply IH. Qed.
+
+Lemma peer_blocked_ext : forall m1 m2 p, (forall id, model_has m1 id <-> model_has m2 id) ->
+  peer_blocked m1 p = peer_blocked m2 p.
+Proof.
+  intros m1 m2 p H. apply eq_true_iff_eq. unfold peer_blocked. rewrite !(s_mem_In _ zeqb_spec). apply (H (IdPeer p)).
+Qed.
+
+Lemma ip_refused_ext : forall m1 m2 a, (forall id, model_has m1 id <-> model_has m2 id) ->
+  mem_ok m1 -> mem_ok m2 -> wf_ip a -> ip_refused m1 a = ip_refused m2 a.
+Proof.
+  intros m1 m2 a H O1 O2 Ha. apply eq_true_iff_eq. rewrite !refused_iff by assumption.
+  split; intros [id [Hm Hr]]; exists id; (split; [apply H, Hm|exact Hr]).
+Qed.
+
+(* same enforced rules => same answer to every Intercept* callback *)
+Lemma probe_answer_ext : forall m1 m2 pr, (forall id, model_has m1 id <-> model_has m2 id) ->
+  mem_ok m1 -> mem_ok m2 -> wf_probe pr -> probe_answer m1 pr = probe_answer m2 pr.
+Proof.
+  intros m1 m2 pr H O1 O2 Hw.
+  destruct pr as [p|[a|]|[a|]|[|] p];
+    cbn [probe_answer intercept_peer_dial intercept_addr_dial intercept_accept intercept_secured wf_probe] in *;
+    try reflexivity.
+  - unfold intercept_peer_dial. rewrite (peer_blocked_ext m1 m2 p H). reflexivity.
+  - rewrite (ip_refused_ext m1 m2 a H O1 O2 Hw). reflexivity.
+  - rewrite (ip_refused_ext m1 m2 a H O1 O2 Hw). reflexivity.
+  - rewrite (peer_blocked_ext m1 m2 p H). reflexivity.
+Qed.
+
+Lemma incl_peers : forall m1 m2, (forall id, model_has m1 id -> model_has m2 id) ->
+  incl_b Z.eqb (list_peers m1) (list_peers m2) = true.
+Proof.
+  intros m1 m2 H. unfold incl_b, list_peers. apply forallb_forall. intros p Hp.
+  apply existsb_zeqb. apply (H (IdPeer p)), Hp.
+Qed.
+
+Lemma addr_same_refl : forall a, addr_same a a = true.
+Proof. intros a. unfold addr_same. destruct (norm_ip a). rewrite eqb_reflx, N.eqb_refl. reflexivity. Qed.
+
+Lemma incl_addrs : forall m1 m2, (forall id, model_has m1 id -> model_has m2 id) ->
+  incl_b addr_same (list_addrs m1) (list_addrs m2) = true.
+Proof.
+  intros m1 m2 H. unfold incl_b, list_addrs. apply forallb_forall. intros a Ha.
+  apply in_map_iff in Ha. destruct Ha as [k [<- Hk]].
+  apply existsb_exists. exists (ip_of_akey k). split; [|apply addr_same_refl].
+  apply in_map. apply model_has_akey, H, model_has_akey, Hk.
+Qed.
+
+Lemma incl_subnets : forall m1 m2, (forall id, model_has m1 id -> model_has m2 id) ->
+  mem_ok m1 -> mem_ok m2 -> incl_b subnet_same (list_subnets m1) (list_subnets m2) = true.
+Proof.
+  intros m1 m2 H [_ W1] [_ W2]. unfold incl_b, list_subnets. apply forallb_forall. intros s Hs.
+  apply in_map_iff in Hs. destruct Hs as [[k s0] [E Hin]]. cbn in E. subst s0.
+  assert (Hm : model_has m2 (id_of_skey k)) by (apply H, model_has_skey; eauto).
+  apply model_has_skey in Hm. destruct Hm as [s' Hs'].
+  apply existsb_exists. exists s'. split; [apply (in_map snd) in Hs'; exact Hs'|].
+  unfold subnet_same. destruct (W1 _ _ Hin) as (_ & _ & D1). destruct (W2 _ _ Hs') as (_ & _ & D2).
+  rewrite D1, D2. apply rid_eqb_refl.
+Qed.
+
+(* in every state that satisfies the invariant — after a call that returned nil,
+   after one that returned the datastore's error, after a restart — a gater
+   opened on the datastore answers and lists exactly what the running one does *)
+Lemma reopened_same : forall st, Inv st ->
+  let re := load_rules (g_ds st) in
+  (forall id, model_has (g_mem st) id <-> model_has re id) /\ mem_ok (g_mem st) /\ mem_ok re.
+Proof.
+  intros st [Hd Ha] re. pose proof (agree_load (g_ds st) Hd) as Hl. split; [|split].
+  - intros id. apply (agree_same (g_ds st)); assumption.
+  - eapply agree_mem_ok, Ha.
+  - eapply agree_mem_ok, Hl.
+Qed.
+
+Lemma reopen_check_model : forall prs e st, Inv st -> Forall wf_probe prs ->
+  reopen_check (model_obs prs e st) = [].
+Proof.
+  intros prs e st Hi Hw. destruct (reopened_same st Hi) as (H & O1 & O2).
+  unfold reopen_check, model_obs. cbn [o_ans o_rans o_peers o_rpeers o_addrs o_raddrs o_subnets o_rsubnets].
+  assert (E : map (probe_answer (load_rules (g_ds st))) prs = map (probe_answer (g_mem st)) prs).
+  { apply map_ext_in. intros pr Hp. rewrite Forall_forall in Hw. symmetry. apply probe_answer_ext; auto. }
+  rewrite E, first_diff_b_refl. unfold same_rules.
+  rewrite !incl_peers, !incl_addrs, !incl_subnets by (try assumption; intros id; apply H).
+  reflexivity.
+Qed.
+
+Lemma obs_check_model : forall ms prs e st, R ms (g_mem st) -> Inv st -> Forall wf_probe prs ->
   obs_check ms prs (model_obs prs e st) = [].
 Proof.
-  intros ms prs e st HR Hok Hw. unfold obs_check, model_obs. cbn [o_ans o_peers o_addrs o_subnets].
+  intros ms prs e st HR Hi Hw. pose proof (Inv_mem_ok st Hi) as Hok.
+  pose proof (reopen_check_model prs e st Hi Hw) as Hre.
+  unfold obs_check. unfold model_obs in *. cbn [o_ans o_peers o_addrs o_subnets].
   rewrite probes_ok_model by assumption.
-  rewrite peers_ok_model, addrs_ok_model, subnets_ok_model by assumption. reflexivity.
+  rewrite peers_ok_model, addrs_ok_model, subnets_ok_model by assumption. cbn [negb]. exact Hre.
 Qed.
 
 (* THE theorem: for every history of calls, failed writes, process stops at both
    points and restarts, and every probe set, the property monitor (a subnet rule
-   is identified by the set of its addresses) accepts the model's trace *)
+   is identified by the set of its addresses; the running gater is compared with
+   a reopened one after every event) accepts the model's trace *)
 Lemma monitor_model : forall prs h st ms i,
   Forall wf_probe prs -> Forall wf_event h -> Inv st -> R ms (g_mem st) ->
   monitor_trace prs ms i (model_trace prs st h) = [].
@@ -280,8 +373,67 @@ Proof.
   intros prs h. induction h as [|e r IH]; intros st ms i Hp Hw Hi HR; cbn [model_trace monitor_trace]; [reflexivity|].
   inversion Hw as [|? ? He Hr]; subst.
   destruct (R_step st e ms He Hi HR) as [ms' [E HR']].
-  cbn [o_res model_obs]. rewrite E.
+  assert (Eres : o_res (model_obs prs e (step st e)) = model_res e) by reflexivity.
+  rewrite Eres, E.
   pose proof (Inv_step st e He Hi) as Hi'.
-  rewrite obs_check_model by (try assumption; apply Inv_mem_ok, Hi').
+  rewrite obs_check_model by assumption.
   apply IH; assumption.
+Qed.
+
+(* ---- resolver cases ------------------------------------------------------------------ *)
+(* the monitor's knowledge after a whole history of calls stays coupled to the model *)
+Lemma R_run : forall h st ms, Forall wf_event h -> Inv st -> R ms (g_mem st) ->
+  exists ms', mon_calls ms h = Some ms' /\ R ms' (g_mem (run st h)).
+Proof.
+  induction h as [|e r IH]; intros st ms Hw Hi HR.
+  - exists ms. split; [reflexivity|exact HR].
+  - inversion Hw as [|? ? He Hr]; subst. destruct (R_step st e ms He Hi HR) as [ms1 [E HR1]].
+    cbn [mon_calls]. rewrite E. change (run st (e :: r)) with (run (step st e) r).
+    apply IH; [assumption|apply Inv_step; assumption|exact HR1].
+Qed.
+
+Definition wf_kaddr (k : kaddr) : Prop :=
+  match k with
+  | KIp a => wf_ip a
+  | KName (Some l) => Forall wf_ip l
+  | KName None => True
+  end.
+
+Lemma resolve_wf : forall l, Forall wf_kaddr l -> Forall wf_ip (resolve_addrs l).
+Proof.
+  induction l as [|k r IH]; intros H; cbn [resolve_addrs flat_map]; [constructor|].
+  inversion H as [|? ? Hk Hr]; subst. apply Forall_app. split; [|apply IH; assumption].
+  destruct k as [a|[l0|]]; cbn in *; [constructor; [assumption|constructor]|assumption|constructor].
+Qed.
+
+(* an address the model hands to a transport was let through by InterceptAddrDial,
+   so the monitor — which only knows the calls and their results — cannot hold
+   it for certainly blocked *)
+Lemma res_scan_addrs : forall ms m addrs i, R ms m -> mem_ok m -> Forall wf_ip addrs ->
+  res_scan ms false i (rdial_addrs m addrs) = [].
+Proof.
+  intros ms m addrs. induction addrs as [|a r IH]; intros i HR Hok Hw; cbn [rdial_addrs]; [reflexivity|].
+  inversion Hw as [|? ? Ha Hr]; subst. cbn [res_scan].
+  destruct (intercept_addr_dial m (Some a)) eqn:E; cbn [app res_scan].
+  - assert (Hn : must_refuse ms a = false).
+    { destruct (must_refuse ms a) eqn:Em; [|reflexivity].
+      apply (must_refuse_sound ms m a HR Hok Ha) in Em. cbn in E. rewrite Em in E. discriminate. }
+    cbn [addr_must_refuse]. rewrite Hn. apply IH; assumption.
+  - apply IH; assumption.
+Qed.
+
+Lemma monitor_res_model : forall h p l, Forall wf_event h -> Forall wf_kaddr l ->
+  monitor_res (mkRcase h p l (rdial (g_mem (run init_state h)) p l)) = [].
+Proof.
+  intros h p l Hw Hl. unfold monitor_res. cbn [rc_calls rc_peer rc_evs].
+  destruct (R_run h init_state [] Hw Inv_init R_nil) as [ms [E HR]]. rewrite E.
+  assert (Hok : mem_ok (g_mem (run init_state h))) by (apply Inv_mem_ok, Inv_run; [exact Hw|apply Inv_init]).
+  unfold rdial. destruct (is_B (st_of ms (IdPeer p))) eqn:EB.
+  - assert (Hb : peer_blocked (g_mem (run init_state h)) p = true).
+    { destruct HR as (_ & R1 & _).
+      destruct (st_of_cases ms (IdPeer p)) as [Hin|[Hd _]]; [|rewrite Hd in EB; discriminate].
+      apply (s_mem_In _ zeqb_spec). apply (R1 _ _ Hin EB). }
+    unfold intercept_peer_dial. rewrite Hb. reflexivity.
+  - cbn [res_scan]. destruct (intercept_peer_dial (g_mem (run init_state h)) p); [|reflexivity].
+    rewrite res_scan_addrs; [reflexivity|exact HR|exact Hok|apply resolve_wf, Hl].
 Qed.
